@@ -276,15 +276,19 @@ func engineHint(c *Ctx) {
 			}
 			for s := 0; s < ns; s++ {
 				var src []store.VerifHintItem
+				emptySrc := r.Chance(6) // a hint file without items among the sources
 				for _, it := range pool {
-					if r.Chance(55) {
+					if r.Chance(55) && !emptySrc {
 						it.Offset = uint32(r.Intn(offRange)) << 8
 						it.Ver = int32(1 + r.Intn(50))
 						src = append(src, it)
 					}
 				}
+				if len(src) == 0 && !r.Chance(50) {
+					src = append(src, pool[0])
+				}
 				if len(src) == 0 {
-					src = append(src, pool[0]) // merge dereferences the first item of every source
+					c.count("merge-source-without-items")
 				}
 				srcs = append(srcs, src)
 				if tieCase && s > 0 && r.Chance(50) {
